@@ -176,7 +176,7 @@ MUTANTS = {
     },
     "c18_inverted": {
         "props": ["C18"],
-        "edits": [(TR, "random.randrange(self.sample_rate) != 0:", "random.randrange(self.sample_rate) == 0:")],
+        "edits": [(TR, "self._random.randrange(self.sample_rate) != 0:", "self._random.randrange(self.sample_rate) == 0:")],
     },
     "c18_sample_on_return": {
         "props": ["C18"],
@@ -192,7 +192,7 @@ MUTANTS = {
     },
     "c18_off_by_one_rate": {
         "props": ["C18"],
-        "edits": [(TR, "random.randrange(self.sample_rate) != 0:", "random.randrange(self.sample_rate + 1) != 0:")],
+        "edits": [(TR, "self._random.randrange(self.sample_rate) != 0:", "self._random.randrange(self.sample_rate + 1) != 0:")],
     },
     "c17_no_purelib": {
         "props": ["C17"],
